@@ -120,8 +120,12 @@ impl<T: std::future::Future> std::future::Future for InSpan<T> {
     fn poll(self: std::pin::Pin<&mut Self>, cx: &mut std::task::Context<'_>) -> Poll<Self::Output> {
         let this = self.project();
 
-        let _guard = this.span.as_ref().map(|s| s.set_local_parent());
-        let res = this.inner.poll(cx);
+        let res = {
+            // The guard must be released before the span finishes, so that what was recorded
+            // during the final poll is submitted before the span (and, for a root, its commit).
+            let _guard = this.span.as_ref().map(|s| s.set_local_parent());
+            this.inner.poll(cx)
+        };
 
         match res {
             r @ Poll::Pending => r,
